@@ -40,6 +40,9 @@ func genOptionsMap(r *Rng) map[string]string {
 	if r.Intn(3) == 0 {
 		m["z"] = "" // a final pair shorter than six bytes on the wire
 	}
+	if r.Intn(6) == 0 {
+		m[""] = "e" // the empty key: legal in a mapping, sorted first
+	}
 	return m
 }
 
